@@ -73,6 +73,7 @@ func scanPrelude(pre string) (heapFns map[string]bool, fnSort map[string]Sort) {
 		fnSort[m[1]] = toSort(m[3])
 	}
 	fnSort["sortPerm"] = SPerm
+	fnSort["sortInv"] = SPerm
 	return
 }
 
